@@ -28,7 +28,8 @@ EXPLANATION = (
     "must be guarded by an emptiness test or covered by a named input assumption. C16.e (sibling agreement): every "
     "expression that measures the time since the start of yield formation has the normal form dap - delayed_cds - "
     "HIstartCD - 1 (over canonical state / crop atoms), so that the HIt > 0 guards of the callers protect the divisions "
-    "by that quantity in the callees. NOT decided: numeric assert "
+    "by that quantity in the callees. C16.f: no in-place store targets the SoilProfile arrays (they are read-only views of a "
+    "pandas frame: ValueError). NOT decided: numeric assert "
     "failures, non-finite results from run-time values, pandas-internal errors.")
 
 L = frozenset
@@ -333,6 +334,9 @@ def attribute_definedness(chk, prog):
             for n in walk_no_nested(fi.node):
                 if isinstance(n, ast.Attribute) and isinstance(n.ctx, ast.Load):
                     c = cls_of(r.paths(fi, n.value))
+                    if c is None and fi.cls in fields and isinstance(n.value, ast.Name) and fi.node.args.args \
+                            and n.value.id == fi.node.args.args[0].arg and fi.name != "__init__":
+                        c = fi.cls          # `self` inside a method of a record class
                     if c is None or c not in fields:
                         continue
                     reads += 1
@@ -389,8 +393,30 @@ def rule_a(chk, prog):
     chk.floor("C16.a-locals", nlocals, 900, "locals checked")
 
 
+def readonly_arrays(chk, prog):
+    """C16.f: the SoilProfile arrays are `.values` of a pandas frame (read-only under copy-on-write): an in-place
+    store into them raises ValueError at run time (the same stores violate C12)"""
+    from ..common import step_roles
+    from ..effects import stores as _stores
+    roles = step_roles(prog)
+    n = 0
+    for key in sorted(roles.reached):
+        fi = prog.funcs[key]
+        for st in _stores(prog, fi, roles):
+            if not st.inplace:
+                continue
+            n += 1
+            hit = sorted(p for p in st.paths if p.startswith("PARAM.Soil.Profile."))
+            where = f"{fi.module}:{fi.qualname}"
+            if hit:
+                chk.violation("C16.f", where, st.text, f"in-place store into {hit[0]}, an array taken from a pandas frame (read-only): ValueError: "
+                              "assignment destination is read-only", loc=fi.loc(st.node))
+    chk.ok("C16.f", "aquacrop", f"{n} in-place stores below _perform_timestep", "none targets the soil-profile arrays")
+    chk.floor("C16.f", n, 30, "in-place stores examined")
+
+
 def run(chk, prog, tier):
     from ._siblings import yield_clock_agreement
     chk.parallel(prog, [rule_a, attribute_definedness, lambda c, p: table_divisors(c, p, "C16.c"), first_element_sites,
-                        lambda c, p: yield_clock_agreement(c, p, "C16.e")])
+                        lambda c, p: yield_clock_agreement(c, p, "C16.e"), readonly_arrays])
     chk.exhaustive = True
